@@ -3,6 +3,9 @@ package c09
 
 import (
 	"fmt"
+	"os"
+	"os/exec"
+	"path/filepath"
 	"sort"
 	"strings"
 	"time"
@@ -242,6 +245,10 @@ func evalList(cs listCase, x *fw.Rec) {
 			x.Fail(f+": formatting fails", "", err.Error())
 			continue
 		}
+		// formatting is a pure function of the result: a second call on the same analyzer gives the same bytes
+		if out2, err2 := ca.ConnectionsListToString(conns); err2 != nil || out2 != out {
+			x.Fail(f+": formatting the same result twice gives different output", "", fmt.Sprintf("error: %v\n--- first\n%s\n--- second\n%s", err2, out, out2))
+		}
 		e := expected(conns, ca, cs.exposure)
 		pl, err := ParseList(f, out)
 		if err != nil {
@@ -476,6 +483,71 @@ func Run(r *fw.Run) {
 		w.NPs = []wm.NP{np, {NS: "ns1", Name: "only-in", PodSel: *wm.ML("app", "c"), Types: []string{"Ingress"}, Ingress: []wm.NPRule{{Peers: []wm.NPPeer{{CIDR: "10.0.0.0/9"}, shapePeers[p2]}, Ports: shapePorts[1]}}}}
 		return listCase{w.Infos(), w.Brief(), exp}
 	}, evalList)
+
+	// the CLI's -f FILE: the file (which exists already and is longer) must hold exactly the encoding of the result
+	if bin := os.Getenv("VERIF_CLI_BIN"); bin != "" {
+		famC := c04.Family(false)
+		fw.Explore(r, "cli-output-file", fw.Full, func(c *fw.Ctx) [3]int {
+			return [3]int{c.Choose(2, "list | diff"), c.Choose(6, "world"), c.Choose(5, "format")}
+		}, func(p [3]int, x *fw.Rec) {
+			ws := []*wm.World{famC[3], famC[40], famC[len(famC)-2], famC[len(famC)-5], famC[100], famC[7]}
+			w := ws[p[1]]
+			dir := filepath.Join(fw.Scratch, fmt.Sprintf("c09-cli-%d-%d-%d", p[0], p[1], p[2]))
+			other := dir + "-other"
+			defer os.RemoveAll(dir)
+			defer os.RemoveAll(other)
+			os.MkdirAll(dir, 0o755)
+			os.MkdirAll(other, 0o755)
+			os.WriteFile(filepath.Join(dir, "a.yaml"), []byte(strings.Join(w.YAMLDocs(), "---\n")), 0o644)
+			os.WriteFile(filepath.Join(other, "a.yaml"), []byte(strings.Join(ws[(p[1]+1)%len(ws)].YAMLDocs(), "---\n")), 0o644)
+			outFile := dir + ".out"
+			defer os.Remove(outFile)
+			os.WriteFile(outFile, []byte(strings.Repeat("stale line of an earlier report\n", 3000)), 0o644)
+			x.Describe(func() any { return map[string]any{"world": w.Brief(), "case": fmt.Sprint(p)} })
+			if p[0] == 0 {
+				f := ListFormats[p[2]]
+				if err := exec.Command(bin, "list", "--dirpath", dir, "-o", f, "-q", "-f", outFile).Run(); err != nil {
+					x.Fail("cli list -f fails", "", err.Error())
+					return
+				}
+				b, _ := os.ReadFile(outFile)
+				ca := connlist.NewConnlistAnalyzer(connlist.WithLogger(wm.Quiet()), connlist.WithMuteErrsAndWarns(), connlist.WithOutputFormat(f))
+				conns, _, err := ca.ConnlistFromDirPath(dir)
+				if err != nil {
+					return
+				}
+				pl, err := ParseList(f, string(b))
+				if err != nil {
+					x.Fail("list -f "+f+": the written file cannot be parsed", "", err.Error())
+					return
+				}
+				for _, bb := range CheckList(f, pl, expected(conns, ca, false), false) {
+					x.Fail("list -f FILE: "+bb[0], "", bb[1])
+				}
+			} else {
+				if p[2] >= len(DiffFormats) {
+					return
+				}
+				f := DiffFormats[p[2]]
+				if err := exec.Command(bin, "diff", "--dir1", dir, "--dir2", other, "-o", f, "-q", "-f", outFile).Run(); err != nil {
+					x.Fail("cli diff -f fails", "", err.Error())
+					return
+				}
+				b, _ := os.ReadFile(outFile)
+				d, _ := wm.RunDiff(w.Infos(), ws[(p[1]+1)%len(ws)].Infos(), diff.WithOutputFormat(f))
+				if d.Err != nil {
+					return
+				}
+				for _, bb := range CheckDiff(f, string(b), d) {
+					x.Fail("diff -f FILE: "+bb[0], "", bb[1])
+				}
+			}
+			x.Outcome(fmt.Sprint(p))
+			x.Nontrivial(fmt.Sprint(p))
+		})
+	} else {
+		r.HarnessError("VERIF_CLI_BIN is not set (run through run.sh)")
+	}
 
 	// diff formats over pairs of the C04 family
 	fam := c04.Family(false)
